@@ -106,6 +106,34 @@ func VerifC09Gate() {
 	verifForceOK = false
 }
 
+// VerifC09GateAny: whatever a client puts into X-Forwarded-For (every ASCII
+// string of l bytes, including blanks and commas) it is limited like any other
+// client: of three identical requests at one instant at most max_tokens (1..2)
+// are admitted and forwarded.
+func VerifC09GateAny(l int) {
+	lb, bs := verifFullLB(0, 1, verifFeatLimiter)
+	verifForceOK = true
+	defer func() { verifForceOK = false }()
+	xff := verifrt.String("xForwardedFor", l)
+	for i := 0; i < len(xff); i++ {
+		verifrt.Assume(xff[i] < 0x80)
+	}
+	admitted := 0
+	for i := 0; i < 3; i++ {
+		r := verifRequest("10.1.2.3:4711")
+		if l > 0 {
+			r.Header.Set("X-Forwarded-For", xff)
+		}
+		rec := verifNewRecorder()
+		hits := verifProxyHits[bs[0].Name]
+		verifServe(lb, rec, rec.finish, r)
+		if verifProxyHits[bs[0].Name] > hits {
+			admitted++
+		}
+	}
+	verifrt.Assert(admitted <= 2, "no client attribution escapes the limiter: at most max_tokens of one client's simultaneous requests are forwarded")
+}
+
 // VerifC03Timeouts: for every timeout configuration that validation accepts
 // (values up to 2^31 seconds), the backend transport built by AddBackend has
 // strictly positive timeouts - a backend can never hang a request forever.
